@@ -512,6 +512,92 @@ def unquote (l : Lang) (q : Bytes) : Res Bytes :=
   | .err => .err
   | .outside => .outside
 
+/-! ## The quoted text as a whole program (command position)
+
+  `Parser.Parse` on the same fragment, when the input is a single word: `gotStmtPipe` gives some
+  literal first words a statement-level meaning, and `hasValidIdent` turns a first literal of the
+  form `name=…` / `name+=…` into an assignment. -/
+
+def isNameStart (c : UInt8) : Bool :=
+  c == 0x5f || (0x41 ≤ c.toNat && c.toNat ≤ 0x5a) || (0x61 ≤ c.toNat && c.toNat ≤ 0x7a)
+
+def isNameByte (c : UInt8) : Bool := isNameStart c || (0x30 ≤ c.toNat && c.toNat ≤ 0x39)
+
+/-- `syntax.ValidName`. -/
+def validName : Bytes → Bool
+  | [] => false
+  | c :: rest => isNameStart c && rest.all isNameByte
+
+/-- `p.eqlOffs` of a literal: the index of its first `=`. -/
+def firstEq : Bytes → Option Nat
+  | [] => none
+  | c :: rest => if c = 0x3d then some 0 else (firstEq rest).map (· + 1)
+
+/-- `p.lang.in(langBashLike | LangMirBSDKorn | LangZsh)`. -/
+def kshLike (l : Lang) : Bool := langIn l (langBash ||| langBats ||| langMksh ||| langZsh)
+
+/-- `hasValidIdent` for a first literal `v` (the `name[` form needs `[`, outside the fragment). -/
+def assignLit (l : Lang) (v : Bytes) : Bool :=
+  match firstEq v with
+  | some e =>
+    if e = 0 then false
+    else
+      let e' := if v.getD (e - 1) 0 = 0x2b ∧ kshLike l = true then e - 1 else e  -- a+=x
+      validName (v.take e')
+  | none => false
+
+/-- First words that are builtins of the shell but clauses of this parser (`let`, the declaration
+    builtins, bats' `@test`): not reserved words, `IsKeyword` does not list them. -/
+def clauseWord (l : Lang) (v : Bytes) : Bool :=
+  (kshLike l && [[0x6c, 0x65, 0x74],                                  -- let
+                 [0x6c, 0x6f, 0x63, 0x61, 0x6c],                      -- local
+                 [0x65, 0x78, 0x70, 0x6f, 0x72, 0x74],                -- export
+                 [0x72, 0x65, 0x61, 0x64, 0x6f, 0x6e, 0x6c, 0x79],    -- readonly
+                 [0x74, 0x79, 0x70, 0x65, 0x73, 0x65, 0x74],          -- typeset
+                 [0x6e, 0x61, 0x6d, 0x65, 0x72, 0x65, 0x66]].contains v) ||  -- nameref
+  (langIn l (langBash ||| langBats ||| langZsh) &&
+    v == [0x64, 0x65, 0x63, 0x6c, 0x61, 0x72, 0x65]) ||               -- declare
+  (langIn l langBats && v == [0x40, 0x74, 0x65, 0x73, 0x74])           -- @test
+
+def elifWord : Bytes := [0x65, 0x6c, 0x69, 0x66]
+
+/-- The `case _LitWord: switch p.val` of `gotStmtPipe`: a lone literal word that is not a
+    one-word simple command (block/clause openers, closers, `!`, the clauses above, zsh `{}`). -/
+def stmtWord (l : Lang) (v : Bytes) : Bool :=
+  [[0x21], [0x63, 0x61, 0x73, 0x65], [0x64, 0x6f], [0x64, 0x6f, 0x6e, 0x65], [0x65, 0x73, 0x61, 0x63],
+   [0x66, 0x69], [0x66, 0x6f, 0x72], [0x69, 0x66], [0x74, 0x68, 0x65, 0x6e],
+   [0x75, 0x6e, 0x74, 0x69, 0x6c], [0x77, 0x68, 0x69, 0x6c, 0x65], [0x7b], [0x7d],
+   elifWord].contains v ||                       -- ! case do done esac fi for if then until while { } elif
+  (kshLike l && [[0x5b, 0x5b], [0x5d, 0x5d], [0x66, 0x75, 0x6e, 0x63, 0x74, 0x69, 0x6f, 0x6e],
+                 [0x73, 0x65, 0x6c, 0x65, 0x63, 0x74], [0x74, 0x69, 0x6d, 0x65]].contains v) ||
+                                                -- [[ ]] function select time
+  (langIn l (langBash ||| langBats) && v == [0x63, 0x6f, 0x70, 0x72, 0x6f, 0x63]) ||  -- coproc
+  (langIn l langZsh && v == [0x7b, 0x7d]) ||     -- {}
+  clauseWord l v
+
+inductive CmdRes
+  | simple (w : Word)   -- one statement: a CallExpr with no assignment and exactly this word
+  | assign              -- a CallExpr with one assignment and no word
+  | special             -- a clause, a block, or a parse error caused by a reserved first word
+  | err                 -- parse error of the word itself
+  | outside
+deriving DecidableEq, Repr
+
+/-- `Parser.Parse(q)` when `q` is a single word of the fragment. -/
+def cmdPos (l : Lang) (q : Bytes) : CmdRes :=
+  match lexWords l q with
+  | .ok [w] =>
+    match w with
+    | [] => .outside
+    | .lit v :: rest =>
+      if rest = [] ∧ stmtWord l v = true then .special   -- `_LitWord`: the literal is the whole word
+      else if assignLit l v then .assign
+      else .simple w
+    | _ => .simple w
+  | .ok _ => .outside
+  | .err => .err
+  | .outside => .outside
+
 /-! ## The property's own words (specification) -/
 
 /-- A string the variant cannot represent, in the property's wording: a NUL anywhere; in POSIX a
